@@ -433,6 +433,18 @@ def check_hugr_case(ctx, case, stratum="hugr"):
 
         p = diff(mask_desc(d0), mask_desc(d1))[0]
         bad("hugr-wire-changed", p[0], p[1], p[2])
+    # the one licence: an operation's description may be replaced BY ITS DEFINITION'S -- by nothing else, and only where
+    # the operation was resolved
+    ctx.count("monitor:description-licence")
+    for i, (n0, n1) in enumerate(zip(d0["nodes"], d1["nodes"])):
+        if n0.get("op") != "Extension" or n1.get("op") != "Extension":
+            continue
+        allowed = {n0.get("description", "")}
+        if has_op(n0["extension"], n0["name"]):
+            allowed.add(reg.get_extension(n0["extension"]).get_op(n0["name"]).description)
+        if n1.get("description", "") not in allowed:
+            bad("description-replaced-by-something-else", [i, n0["extension"], n0["name"]], sorted(allowed),
+                n1.get("description", ""))
     ctx.count("monitor:model-invariance")
     m1 = _hugr_model(h)
     ctx.count("monitor:hugr-model-compared" if not m0.startswith("raises ") else "hugr-model-export-raised")
